@@ -47,7 +47,10 @@
    Sensitivity-only deviations (mutations the check must catch; never as-built):
        FlipCompare (> becomes >=), GuardAfterLoad, DecompressBeforeCheck, NoEmptyCap, PlainXmlParser,
        NoOutputLimit (7z: LZMA2 folder decompressed without output limit -- the behaviour before
-       proposed_fixes/c12-7z-lzma2-output-limit.diff).
+       proposed_fixes/c12-7z-lzma2-output-limit.diff), GuardOnLinkSize (read_file compares the size of a
+       symbolic link instead of the file it names), FollowLinksUnchecked (tar link entries pass the member
+       guard with their own size 0 and are followed to bytes above the limit), ReadByNameLast (a member is
+       checked as an entry but read by NAME, which resolves to the last entry of that name).
 
    DON'T-CAREs: max_file_size < 0; whether read_file stats the file when max_file_size = 0; the attributes
    of the TooLarge exception; in-memory decompression of a skipped member that shares a solid 7z folder with
@@ -62,7 +65,7 @@ CONSTANT Deviations
 AsBuiltDeviations == {"UncappedNonEmptyRepeat", "ExtractAllIgnoresFilter",
                       "UnboundedVectorCount", "UncappedSpaceCount", "DenseGridFromSparseCells", "XrefPrevLoop"}
 SensitivityDeviations == {"FlipCompare", "GuardAfterLoad", "DecompressBeforeCheck", "NoEmptyCap", "PlainXmlParser",
-                          "NoOutputLimit"}
+                          "NoOutputLimit", "GuardOnLinkSize", "FollowLinksUnchecked", "ReadByNameLast"}
 DeviationNames == AsBuiltDeviations \cup SensitivityDeviations
 ASSUME Deviations \subseteq DeviationNames
 
@@ -115,11 +118,20 @@ EmptyRepeatCollapse == 100 \* as built: an EMPTY cell / row repeated more than t
 
 (* ------------------------------------------------------------------ scenarios *)
 \* one record shape for everything (unused fields have neutral values)
-Scn(k) == [k |-> k, kind |-> "", max |-> 0, size |-> 0, lim |-> 0, lim2 |-> 0, members |-> <<>>,
+Scn(k) == [k |-> k, kind |-> "", max |-> 0, size |-> 0, via |-> 0, lsize |-> 0, lim |-> 0, lim2 |-> 0, members |-> <<>>,
            c |-> "", mag |-> 0, pos |-> "", skib |-> 0]
 
-\* members: sequence of [size |-> n, folder |-> f]   (folder only matters for 7z; zip/tar use 1..n)
-Mem(size, folder) == [size |-> size, folder |-> folder]
+\* read_file: `via` = number of symbolic links between the path handed to read_file and the file (0 = the
+\* file itself); `size` is the size of the FILE (what open/read load), `lsize` the size lstat reports for the link.
+\* members: sequence of [size, folder, name, type, target]
+\*   folder  only matters for 7z (zip/tar use 1..n)
+\*   name    name index: two entries may carry the SAME name (zip/tar/7z all allow it)
+\*   type    "reg" | "sparse" (GNU sparse: size = logical size) | "pax" (pax extended header)   -- data entries
+\*           | "hard" | "sym" (tar link entries: size 0, their bytes are those of `target`) | "fifo" | "chr"
+\*   target  entry index a link points at (0 = the target is not in the archive)
+Mem(size, folder, name, type, target) == [size |-> size, folder |-> folder, name |-> name, type |-> type, target |-> target]
+DataTypes == {"reg", "sparse", "pax"}
+LinkTypes == {"hard", "sym"}
 
 (* ------------------------------------------------------------------ part (b): cases and their items *)
 \* The ODS sheet of a case: rows of [rep, cells]; a cell is [rep, empty]
@@ -205,11 +217,13 @@ VARIABLES scn,      \* the scenario (fixed in Init)
           st,       \* members: m -> "new" | "skipped" | "mem" | "dropped" | "extracted"
           inmem,    \* members whose bytes were decompressed into memory
           ondisk,   \* members written to disk
+          io,       \* members: [got |-> m -> entry whose bytes are in memory for m (0 = none),
+                    \*           delivered |-> entries whose bytes reached an extractor]
           outcome,  \* "" | "Ok" | "TooLarge"
           work,     \* part (b): <<workLo, workHi>> KiB materialised so far
           cur       \* part (b): cursor <<row, cell, slots, nrows, maxc>> (ODS) or item index
 
-vars == <<scn, pc, hist, st, inmem, ondisk, outcome, work, cur>>
+vars == <<scn, pc, hist, st, inmem, ondisk, io, outcome, work, cur>>
 
 E(a, m) == [a |-> a, m |-> m]
 Say(a, m) == hist' = Append(hist, E(a, m))
@@ -218,6 +232,21 @@ Size(m) == scn.members[m].size
 Folder(m) == scn.members[m].folder
 Folders == {Folder(m) : m \in Members}
 Wanted(m) == st[m] = "kept"
+MType(m) == scn.members[m].type
+IsData(m) == MType(m) \in DataTypes
+IsLink(m) == MType(m) \in LinkTypes
+SameName(a, b) == scn.members[a].name = scn.members[b].name
+\* an entry through which no bytes can be reached: devices, fifos, links whose target is not in the archive
+NoData(m) == ~IsData(m) /\ ~(IsLink(m) /\ scn.members[m].target \in Members)
+\* the data entry whose bytes one gets by reading entry m (tarfile.extractfile follows hard and symbolic links)
+Src(m) == IF IsLink(m) THEN scn.members[m].target ELSE m
+LastSameName(m) == CHOOSE o \in Members : SameName(o, m) /\ \A x \in Members : SameName(x, m) => x <= o
+\* what a read of entry m actually decompresses: the entry itself -- or, when the archive is asked BY NAME
+\* (ZipFile.read(name), NameToInfo), the last entry carrying that name
+DataOf(m) == IF Dev("ReadByNameLast") THEN LastSameName(Src(m)) ELSE Src(m)
+\* the size the per-member guard looks at: the size of the bytes that would be read -- or the link entry's own 0
+GuardedSize(m) == IF IsLink(m) /\ Dev("FollowLinksUnchecked") THEN Size(m) ELSE Size(Src(m))
+LastOnDisk(m) == CHOOSE o \in ondisk : SameName(o, m) /\ \A x \in ondisk : SameName(x, m) => x <= o
 
 InitWith(s) ==
     /\ scn = s
@@ -225,98 +254,110 @@ InitWith(s) ==
     /\ hist = <<>>
     /\ st = [m \in DOMAIN s.members |-> "new"]
     /\ inmem = {} /\ ondisk = {}
+    /\ io = [got |-> [m \in DOMAIN s.members |-> 0], delivered |-> {}]
     /\ outcome = ""
     /\ work = <<0, 0>>
     /\ cur = <<1, 1, 0, 0, 0>>
 
 (* ---- read_file ---- *)
 RF == scn.k = "read_file"
+\* the size the guard compares: that of the file that open() would read (stat follows links) -- the deviation
+\* compares the size of the link itself (lstat)
+RFGuardSize == IF Dev("GuardOnLinkSize") /\ scn.via > 0 THEN scn.lsize ELSE scn.size
 RF_Stat ==
            /\ RF /\ pc = "start" /\ scn.max > 0 /\ ~Dev("GuardAfterLoad")
-           /\ Say("Stat", 0) /\ pc' = "guard" /\ UNCHANGED <<scn, st, inmem, ondisk, outcome, work, cur>>
+           /\ Say("Stat", 0) /\ pc' = "guard" /\ UNCHANGED <<scn, st, inmem, ondisk, io, outcome, work, cur>>
 RF_Disabled ==
            /\ RF /\ pc = "start" /\ (scn.max = 0 \/ Dev("GuardAfterLoad"))
-           /\ pc' = "route" /\ UNCHANGED <<scn, hist, st, inmem, ondisk, outcome, work, cur>>
+           /\ pc' = "route" /\ UNCHANGED <<scn, hist, st, inmem, ondisk, io, outcome, work, cur>>
 RF_Refuse ==
-           /\ RF /\ pc = "guard" /\ Over(scn.size, scn.max)
+           /\ RF /\ pc = "guard" /\ Over(RFGuardSize, scn.max)
            /\ Say("Refuse", 0) /\ pc' = "done" /\ outcome' = "TooLarge"
-           /\ UNCHANGED <<scn, st, inmem, ondisk, work, cur>>
+           /\ UNCHANGED <<scn, st, inmem, ondisk, io, work, cur>>
 RF_Pass ==
-           /\ RF /\ pc = "guard" /\ ~Over(scn.size, scn.max)
-           /\ pc' = "route" /\ UNCHANGED <<scn, hist, st, inmem, ondisk, outcome, work, cur>>
+           /\ RF /\ pc = "guard" /\ ~Over(RFGuardSize, scn.max)
+           /\ pc' = "route" /\ UNCHANGED <<scn, hist, st, inmem, ondisk, io, outcome, work, cur>>
 RF_Open ==
            /\ RF /\ pc = "route" /\ Say("Open", 0) /\ pc' = "opened"
-           /\ UNCHANGED <<scn, st, inmem, ondisk, outcome, work, cur>>
+           /\ UNCHANGED <<scn, st, inmem, ondisk, io, outcome, work, cur>>
 RF_Load ==
            /\ RF /\ pc = "opened" /\ Say("Load", 0)
            /\ pc' = (IF Dev("GuardAfterLoad") /\ scn.max > 0 THEN "lateguard" ELSE "loaded")
-           /\ UNCHANGED <<scn, st, inmem, ondisk, outcome, work, cur>>
+           /\ UNCHANGED <<scn, st, inmem, ondisk, io, outcome, work, cur>>
 RF_LateGuard ==
            /\ RF /\ pc = "lateguard"
-           /\ IF Over(scn.size, scn.max)
+           /\ IF Over(RFGuardSize, scn.max)
               THEN Say("Refuse", 0) /\ pc' = "done" /\ outcome' = "TooLarge"
-              ELSE pc' = "loaded" /\ UNCHANGED <<hist, outcome>>
-           /\ UNCHANGED <<scn, st, inmem, ondisk, work, cur>>
+              ELSE pc' = "loaded" /\ UNCHANGED <<hist, io, outcome>>
+           /\ UNCHANGED <<scn, st, inmem, ondisk, io, work, cur>>
 RF_Extract ==
            /\ RF /\ pc = "loaded" /\ Say("Extract", 0) /\ pc' = "done" /\ outcome' = "Ok"
-           /\ UNCHANGED <<scn, st, inmem, ondisk, work, cur>>
+           /\ UNCHANGED <<scn, st, inmem, ondisk, io, work, cur>>
 
 (* ---- read_archive on a 7z of a given size ---- *)
 SZ == scn.k = "sevenz_size"
 SZ_Size ==
            /\ SZ /\ pc = "start" /\ Say("Size", 0)
            /\ pc' = (IF Dev("GuardAfterLoad") THEN "parse" ELSE "guard")
-           /\ UNCHANGED <<scn, st, inmem, ondisk, outcome, work, cur>>
+           /\ UNCHANGED <<scn, st, inmem, ondisk, io, outcome, work, cur>>
 SZ_Refuse ==
            /\ SZ /\ pc = "guard" /\ Over(scn.size, Max7zFileSize)
            /\ Say("Refuse", 0) /\ pc' = "done" /\ outcome' = "TooLarge"
-           /\ UNCHANGED <<scn, st, inmem, ondisk, work, cur>>
+           /\ UNCHANGED <<scn, st, inmem, ondisk, io, work, cur>>
 SZ_Pass ==
            /\ SZ /\ pc = "guard" /\ ~Over(scn.size, Max7zFileSize)
-           /\ pc' = "parse" /\ UNCHANGED <<scn, hist, st, inmem, ondisk, outcome, work, cur>>
+           /\ pc' = "parse" /\ UNCHANGED <<scn, hist, st, inmem, ondisk, io, outcome, work, cur>>
 SZ_Parse ==
            /\ SZ /\ pc = "parse" /\ Say("ParseHeader", 0)
            /\ pc' = (IF Dev("GuardAfterLoad") THEN "lateguard" ELSE "parsed")
-           /\ UNCHANGED <<scn, st, inmem, ondisk, outcome, work, cur>>
+           /\ UNCHANGED <<scn, st, inmem, ondisk, io, outcome, work, cur>>
 SZ_LateGuard ==
            /\ SZ /\ pc = "lateguard"
            /\ IF Over(scn.size, Max7zFileSize)
               THEN Say("Refuse", 0) /\ pc' = "done" /\ outcome' = "TooLarge"
-              ELSE pc' = "parsed" /\ UNCHANGED <<hist, outcome>>
-           /\ UNCHANGED <<scn, st, inmem, ondisk, work, cur>>
+              ELSE pc' = "parsed" /\ UNCHANGED <<hist, io, outcome>>
+           /\ UNCHANGED <<scn, st, inmem, ondisk, io, work, cur>>
 SZ_Finish ==
            /\ SZ /\ pc = "parsed" /\ pc' = "done" /\ outcome' = "Ok"      \* members: see the member machine
-           /\ UNCHANGED <<scn, hist, st, inmem, ondisk, work, cur>>
+           /\ UNCHANGED <<scn, hist, st, inmem, ondisk, io, work, cur>>
 
 (* ---- member loops ---- *)
 MB == scn.k = "members"
 Streaming == scn.kind \in {"zip", "tar"}
 \* zip / tar: check a member, then decompress it into memory, then extract it (any member order)
+\* an entry may always be left out when it is not a data entry (links, devices: the code skips everything
+\* that is not a regular file); a data entry only when it is above the limit
 MB_Skip(m) ==
-           /\ MB /\ Streaming /\ st[m] = "new" /\ Over(Size(m), scn.lim) /\ ~Dev("DecompressBeforeCheck")
+           /\ MB /\ Streaming /\ st[m] = "new" /\ ~Dev("DecompressBeforeCheck")
+           /\ (~IsData(m) \/ Over(Size(m), scn.lim))
            /\ st' = [st EXCEPT ![m] = "skipped"] /\ Say("Skip", m)
-           /\ UNCHANGED <<scn, pc, inmem, ondisk, outcome, work, cur>>
+           /\ UNCHANGED <<scn, pc, inmem, ondisk, io, outcome, work, cur>>
+\* reading entry m decompresses DataOf(m); following a link to bytes within the limit is not forbidden
 MB_Decompress(m) ==
-           /\ MB /\ Streaming /\ st[m] = "new" /\ (~Over(Size(m), scn.lim) \/ Dev("DecompressBeforeCheck"))
-           /\ st' = [st EXCEPT ![m] = IF Over(Size(m), scn.lim) THEN "skipped" ELSE "mem"]
-           /\ inmem' = inmem \cup {m} /\ Say("Decompress", m)
+           /\ MB /\ Streaming /\ st[m] = "new" /\ ~NoData(m)
+           /\ (~Over(GuardedSize(m), scn.lim) \/ Dev("DecompressBeforeCheck"))
+           /\ st' = [st EXCEPT ![m] = IF Over(GuardedSize(m), scn.lim) THEN "skipped" ELSE "mem"]
+           /\ inmem' = inmem \cup {DataOf(m)}
+           /\ io' = [io EXCEPT !.got[m] = DataOf(m)]
+           /\ Say("Decompress", DataOf(m))
            /\ UNCHANGED <<scn, pc, ondisk, outcome, work, cur>>
 MB_Drop(m) ==
-           /\ MB /\ st[m] = "mem" /\ Over(Size(m), scn.lim2)
+           /\ MB /\ st[m] = "mem" /\ Over(Size(io.got[m]), scn.lim2)
            /\ st' = [st EXCEPT ![m] = "dropped"] /\ Say("Drop", m)
-           /\ UNCHANGED <<scn, pc, inmem, ondisk, outcome, work, cur>>
+           /\ UNCHANGED <<scn, pc, inmem, ondisk, io, outcome, work, cur>>
 MB_Extract(m) ==
-           /\ MB /\ st[m] = "mem" /\ ~Over(Size(m), scn.lim2)
-           /\ st' = [st EXCEPT ![m] = "extracted"] /\ Say("Extract", m)
+           /\ MB /\ st[m] = "mem" /\ ~Over(Size(io.got[m]), scn.lim2)
+           /\ st' = [st EXCEPT ![m] = "extracted"] /\ Say("Extract", io.got[m])
+           /\ io' = [io EXCEPT !.delivered = @ \cup {io.got[m]}]
            /\ UNCHANGED <<scn, pc, inmem, ondisk, outcome, work, cur>>
 \* 7z: filter everything (pc "start"), decompress folders and write members (pc "unpack"), read back (pc "read")
 MB7_Filter(m) ==
            /\ MB /\ scn.kind = "7z" /\ pc = "start" /\ st[m] = "new"
            /\ st' = [st EXCEPT ![m] = IF Over(Size(m), scn.lim) THEN "skipped" ELSE "kept"]
-           /\ UNCHANGED <<scn, pc, hist, inmem, ondisk, outcome, work, cur>>
+           /\ UNCHANGED <<scn, pc, hist, inmem, ondisk, io, outcome, work, cur>>
 MB7_Filtered ==
            /\ MB /\ scn.kind = "7z" /\ pc = "start" /\ \A m \in Members : st[m] # "new"
-           /\ pc' = "unpack" /\ UNCHANGED <<scn, hist, st, inmem, ondisk, outcome, work, cur>>
+           /\ pc' = "unpack" /\ UNCHANGED <<scn, hist, st, inmem, ondisk, io, outcome, work, cur>>
 FolderWanted(f) == \E m \in Members : Folder(m) = f /\ st[m] = "kept"
 FolderDone(f) == \E i \in DOMAIN hist : hist[i] = E("DecompressFolder", f)
 MB7_Folder(f) ==
@@ -325,18 +366,25 @@ MB7_Folder(f) ==
            /\ inmem' = inmem \cup {m \in Members : Folder(m) = f}
            /\ ondisk' = ondisk \cup {m \in Members : Folder(m) = f /\ (st[m] = "kept" \/ Dev("ExtractAllIgnoresFilter"))}
            /\ Say("DecompressFolder", f)
-           /\ UNCHANGED <<scn, pc, st, outcome, work, cur>>
+           /\ UNCHANGED <<scn, pc, st, io, outcome, work, cur>>
 MB7_Unpacked ==
            /\ MB /\ scn.kind = "7z" /\ pc = "unpack"
            /\ (\A f \in Folders : FolderDone(f) \/ ~(FolderWanted(f) \/ Dev("ExtractAllIgnoresFilter")))
-           /\ pc' = "read" /\ UNCHANGED <<scn, hist, st, inmem, ondisk, outcome, work, cur>>
-MB7_Read(m) ==
-           /\ MB /\ scn.kind = "7z" /\ pc = "read" /\ st[m] = "kept"
-           /\ st' = [st EXCEPT ![m] = "mem"] /\ UNCHANGED <<scn, pc, hist, inmem, ondisk, outcome, work, cur>>
+           /\ pc' = "read" /\ UNCHANGED <<scn, hist, st, inmem, ondisk, io, outcome, work, cur>>
+\* the kept member is read back from the temporary directory BY NAME: it gets its own bytes, or -- two
+\* entries of one name were written to one path -- those of the last entry written under that name
+\* (which of two kept entries comes out is C10's business; a skipped entry's bytes can only come out when
+\* skipped entries are written, i.e. under ExtractAllIgnoresFilter)
+MB7_Read(m, e) ==
+           /\ MB /\ scn.kind = "7z" /\ pc = "read" /\ st[m] = "kept" /\ m \in ondisk
+           /\ e \in {m, LastOnDisk(m)}
+           /\ st' = [st EXCEPT ![m] = "mem"]
+           /\ io' = [io EXCEPT !.got[m] = e]
+           /\ UNCHANGED <<scn, pc, hist, inmem, ondisk, outcome, work, cur>>
 MB_Finish ==
            /\ MB /\ pc \in (IF scn.kind = "7z" THEN {"read"} ELSE {"start"})
            /\ (\A m \in Members : st[m] \in {"skipped", "dropped", "extracted"})
-           /\ pc' = "done" /\ outcome' = "Ok" /\ UNCHANGED <<scn, hist, st, inmem, ondisk, work, cur>>
+           /\ pc' = "done" /\ outcome' = "Ok" /\ UNCHANGED <<scn, hist, st, inmem, ondisk, io, work, cur>>
 
 (* ---- part (b): cost accounting ---- *)
 CB == scn.k = "cost"
@@ -348,32 +396,33 @@ CB_OdsCell ==
            /\ LET k == CellSlots(Sheet[cur[1]].cells[cur[2]]) IN
               /\ work' = Add(work, k)
               /\ cur' = <<cur[1], cur[2] + 1, SatAdd(cur[3], k), cur[4], cur[5]>>
-           /\ UNCHANGED <<scn, pc, hist, st, inmem, ondisk, outcome>>
+           /\ UNCHANGED <<scn, pc, hist, st, inmem, ondisk, io, outcome>>
 CB_OdsRowEnd ==
            /\ CB /\ IsOds(scn.c) /\ pc = "start" /\ cur[1] <= Len(Sheet) /\ cur[2] > Len(Sheet[cur[1]].cells)
            /\ LET k == RowCopies(Sheet[cur[1]]) IN
               /\ work' = Add(work, k)
               /\ cur' = <<cur[1] + 1, 1, 0, SatAdd(cur[4], k), Max(cur[5], cur[3])>>
-           /\ UNCHANGED <<scn, pc, hist, st, inmem, ondisk, outcome>>
+           /\ UNCHANGED <<scn, pc, hist, st, inmem, ondisk, io, outcome>>
 CB_OdsSheetEnd ==
            /\ CB /\ IsOds(scn.c) /\ pc = "start" /\ cur[1] > Len(Sheet)
            /\ work' = Add(work, SatMul(cur[4], cur[5]))                   \* rows_data: one padded list per row
            /\ pc' = "done" /\ outcome' = "Ok"
-           /\ UNCHANGED <<scn, hist, st, inmem, ondisk, cur>>
+           /\ UNCHANGED <<scn, hist, st, inmem, ondisk, io, cur>>
 TheItems == Items(scn.c, scn.mag, scn.pos, scn.skib)
 CB_Expand ==
            /\ CB /\ ~IsOds(scn.c) /\ pc = "start" /\ cur[1] <= Len(TheItems)
            /\ LET it == TheItems[cur[1]] IN
               work' = <<SatAdd(work[1], KiBOf(ItemN(it), it.lo)), SatAdd(work[2], KiBOf(ItemN(it), it.hi))>>
            /\ cur' = <<cur[1] + 1, 1, 0, 0, 0>>
-           /\ UNCHANGED <<scn, pc, hist, st, inmem, ondisk, outcome>>
+           /\ UNCHANGED <<scn, pc, hist, st, inmem, ondisk, io, outcome>>
 CB_Finish ==
            /\ CB /\ ~IsOds(scn.c) /\ pc = "start" /\ cur[1] > Len(TheItems)
-           /\ pc' = "done" /\ outcome' = "Ok" /\ UNCHANGED <<scn, hist, st, inmem, ondisk, work, cur>>
+           /\ pc' = "done" /\ outcome' = "Ok" /\ UNCHANGED <<scn, hist, st, inmem, ondisk, io, work, cur>>
 
 Next == \/ RF_Stat \/ RF_Disabled \/ RF_Refuse \/ RF_Pass \/ RF_Open \/ RF_Load \/ RF_LateGuard \/ RF_Extract
         \/ SZ_Size \/ SZ_Refuse \/ SZ_Pass \/ SZ_Parse \/ SZ_LateGuard \/ SZ_Finish
-        \/ \E m \in Members : MB_Skip(m) \/ MB_Decompress(m) \/ MB_Drop(m) \/ MB_Extract(m) \/ MB7_Filter(m) \/ MB7_Read(m)
+        \/ \E m \in Members : MB_Skip(m) \/ MB_Decompress(m) \/ MB_Drop(m) \/ MB_Extract(m) \/ MB7_Filter(m)
+        \/ \E m \in Members : \E e \in Members : MB7_Read(m, e)
         \/ \E f \in Folders : MB7_Folder(f)
         \/ MB7_Filtered \/ MB7_Unpacked \/ MB_Finish
         \/ CB_OdsCell \/ CB_OdsRowEnd \/ CB_OdsSheetEnd \/ CB_Expand \/ CB_Finish
@@ -390,19 +439,26 @@ Inv_NoLoadBeforeGuard == Refused => \A i \in DOMAIN hist : hist[i].a \notin Load
 Inv_Boundary == (pc = "done" /\ scn.k \in {"read_file", "sevenz_size"}) => ((outcome = "TooLarge") <=> Refused)
 
 \* a solid folder that also holds a kept member has to be decoded: in-memory decompression of its skipped
-\* members is DON'T-CARE; writing them to disk is not
+\* members is DON'T-CARE; writing them to disk is not.  "Skipped" is about the BYTES: a data entry above the
+\* limit is not decompressed, not written and its bytes reach no extractor -- whichever way they are reached
+\* (directly, through a tar link entry, through a second entry of the same name)
 SharesFolderWithKept(m) == scn.kind = "7z" /\ \E o \in Members : o # m /\ Folder(o) = Folder(m) /\ ~MustSkip(Size(o), scn.lim)
 Inv_SkippedNeverDecompressed ==
     scn.k = "members" =>
-        \A m \in Members : MustSkip(Size(m), scn.lim) =>
+        \A m \in Members : (IsData(m) /\ MustSkip(Size(m), scn.lim)) =>
             /\ m \notin ondisk
             /\ (m \in inmem => SharesFolderWithKept(m))
+            /\ m \notin io.delivered
             /\ st[m] # "extracted"
 
-\* what passes both limits is extracted, what does not is not (limit itself passes: ">" not ">=")
+\* what passes both limits is extracted, what does not is not (limit itself passes: ">" not ">=");
+\* link entries: following them is DON'T-CARE, but only bytes within the limits may come out of them
 Inv_MemberBoundary ==
     (scn.k = "members" /\ pc = "done") =>
-        \A m \in Members : (st[m] = "extracted") <=> MustExtract(Size(m), scn.lim, scn.lim2)
+        \A m \in Members :
+            /\ IsData(m) => ((st[m] = "extracted") <=> MustExtract(Size(m), scn.lim, scn.lim2))
+            /\ (~IsData(m) /\ st[m] = "extracted") => (~NoData(m) /\ MustExtract(Size(Src(m)), scn.lim, scn.lim2))
+            /\ \A e \in io.delivered : MustExtract(Size(e), scn.lim, scn.lim2)
 
 \* part (b): even the ceiling of the model's cost stays within A + B * size  (reference design)
 Class == Classify(work[1], work[2], scn.skib)
